@@ -98,8 +98,8 @@ def cut(pos, d, out, probe_lit):
 @harness(
     prop="C05",
     cubes={"pos": range(NPOS), "d": range(ND)},
-    bounds={"quick": {"L": 3}, "thorough": {"L": 4}},
-    timeout={"quick": 120, "thorough": 900},
+    bounds={"quick": {"L": 3}, "thorough": {"L": 5}},
+    timeout={"quick": 120, "thorough": 1200},
     witness=[dict(pos=1, d=2, s="a'b"), dict(pos=5, d=1, s="a" + chr(92)), dict(pos=4, d=0, s="")],
     doc="str value (any code points, len<=L) at 13 value positions x 6 dialect classes; reference lexer must read "
         "the emitted text as one literal decoding to the value",
